@@ -523,6 +523,92 @@ def _impl_kv(c):
     sig = 'kv:%s:eg%d:%s:%d' % (c['pol'], c['eg'], exc or 'ok', 0 if exc else min(len(kv), 4))
     return {'out': out, 'fail': fail, 'sig': sig}
 
+# ---------------------------------------------------------------- argument views (ParsedArgumentsInfo), oracle only
+
+_ARGDB = []
+def _arg_db():
+    if not _ARGDB:
+        from pylatexenc import latexwalker, macrospec
+        db = latexwalker.get_default_latex_context_db()
+        db.add_context_category('c18-argviews', prepend=True, macros=[macrospec.MacroSpec('cmd', '[{'), macrospec.MacroSpec('one', '{')])
+        _ARGDB.append(db)
+    return _ARGDB[0]
+
+def _impl_argview(c):
+    """`\\cmd[<o>]{<m>}`: the content view of an argument is the group's node list (for an argument that is ONE group with
+    DIFFERENT delimiters — `[{…}]` — that inner group's node list, as documented), a single-token argument is itself, an absent
+    optional argument is [None]; key-value parsing / comma splitting through the view agree with doing it on that node list"""
+    from pylatexenc.latexwalker import LatexWalker
+    from pylatexenc.latexnodes.parsers import LatexGeneralNodesParser
+    from pylatexenc.latexnodes import nodes as N, ParsedArgumentsInfo, LatexWalkerParseError
+    body = _src(c)
+    wrap = c['wrap']
+    s = {'m': '\\cmd{%s}', 'o': '\\cmd[%s]{z}', 'mg': '\\cmd{{%s}}', 'og': '\\cmd[{%s}]{z}', 'mgx': '\\cmd{{%s}x}', 'absent': '\\cmd {%s}', 'tok': '\\one %s'}[wrap] % body
+    ai = 0 if wrap in ('o', 'og', 'absent') else (0 if wrap == 'tok' else 1)
+    try:
+        w = LatexWalker(s, latex_context=_arg_db(), tolerant_parsing=False)
+        nl, _ = w.parse_content(LatexGeneralNodesParser())
+    except Exception:
+        return {'out': None, 'fail': None, 'sig': 'skip'}
+    node = nl[0]
+    if not isinstance(node, N.LatexMacroNode) or node.nodeargd is None or len(node.nodeargd.argnlist) <= ai:
+        return {'out': None, 'fail': None, 'sig': 'skip'}
+    arg = node.nodeargd.argnlist[ai]
+    # the documented content, computed here from the tree
+    if arg is None:
+        want_nodes = [None]
+    elif isinstance(arg, N.LatexGroupNode):
+        inner = list(arg.nodelist)
+        if len(inner) == 1 and isinstance(inner[0], N.LatexGroupNode) and inner[0].delimiters[0] != arg.delimiters[0]:
+            inner = list(inner[0].nodelist)
+        want_nodes = inner
+    else:
+        want_nodes = [arg]
+    info = ParsedArgumentsInfo(node=node).get_argument_info(ai)
+    got = info.get_content_nodelist()
+    ident = lambda l: [None if n is None else (type(n).__name__, n.pos, n.pos_end) for n in l]
+    out = 'ok ' + ' '.join(_dump_item(s, n) for n in got)
+    sig = 'argview:%s:%d' % (wrap, min(len(want_nodes), 3))
+    if not isinstance(got, N.LatexNodeList) or ident(got) != ident(want_nodes):
+        return {'out': out, 'sig': sig, 'fail': {'kind': 'argview-content', 'detail': 'argument %d of %r: get_content_nodelist() gives %r, the documented content is %r'
+                                                 % (ai, s, ident(got), ident(want_nodes))}}
+    # independent of the tree for simple bodies: the content's source text is what was written between the delimiters
+    if wrap in ('m', 'o', 'mg', 'og', 'mgx') and not any(ch in body for ch in '[]') and arg is not None and s[arg.pos:arg.pos_end] in ('{%s}' % body, '[%s]' % body, '{{%s}}' % body, '[{%s}]' % body, '{{%s}x}' % body):
+        want_src = {'m': body, 'o': body, 'mg': '{%s}' % body, 'og': body, 'mgx': '{%s}x' % body}[wrap]
+        if wrap in ('m', 'o') and False:
+            pass
+        src = ''.join(s[n.pos:n.pos_end] for n in got if n is not None)
+        # (a body that is itself one brace group inside [...] is unwrapped, as documented)
+        b2 = _parse(body)
+        if wrap == 'o' and b2 is not None and len(b2) == 1 and isinstance(b2[0], N.LatexGroupNode):
+            want_src = body[1:-1]
+        if src != want_src:
+            return {'out': out, 'sig': sig, 'fail': {'kind': 'argview-content', 'detail': 'argument %d of %r: content source %r, written %r' % (ai, s, src, want_src)}}
+    # key-value parsing and comma splitting through the view = on the documented content
+    wl = N.LatexNodeList(want_nodes, parsing_state=got.parsing_state, latex_walker=w)
+    def kv(f):
+        try:
+            r = f()
+            return ('ok', [(k, [(n.pos, n.pos_end) for n in v if n is not None]) for k, v in r.items()])
+        except LatexWalkerParseError:
+            return ('exc', 'LatexWalkerParseError')
+        except ValueError:
+            return ('exc', 'ValueError')
+    kw = dict(repeated_key_aggregate_action=c['pol'], extract_value_group_contents=c['eg'])
+    g = kv(lambda: info.parse_content_as_keyval(**kw))
+    cc = dict(c, csep=COMMA, esep=EQ)
+    want, pairs = _kv_fold(_kv_pairs(s, wl, cc, True), c['pol'])
+    if g != want:
+        return {'out': out, 'sig': sig, 'fail': {'kind': 'argview-keyval', 'detail': 'argument %d of %r: parse_content_as_keyval(%r) gives %r; splitting the documented content at commas, then at the first equals sign, policy %r: %r'
+                                                 % (ai, s, kw, g, c['pol'], want)}}
+    def chars(f):
+        try: return ('ok', f())
+        except LatexWalkerParseError: return ('exc', 'LatexWalkerParseError')
+    gc, wc = chars(info.get_content_as_chars), chars(wl.get_content_as_chars)
+    if gc != wc:
+        return {'out': out, 'sig': sig, 'fail': {'kind': 'argview-chars', 'detail': 'argument %d of %r: get_content_as_chars() %r, on the documented content %r' % (ai, s, gc, wc)}}
+    return {'out': out + ' | ' + repr(g)[:200], 'fail': None, 'sig': sig + ':' + g[0]}
+
 # ---------------------------------------------------------------- oracle-only kinds
 
 def _impl_proto(c):
@@ -574,6 +660,8 @@ def run_impl(c):
         return _impl_node(c)
     if k == 'kv':
         return _impl_kv(c)
+    if k == 'argview':
+        return _impl_argview(c)
     if k == 'proto':
         return _impl_proto(c)
     if k == 'empty':
@@ -667,6 +755,14 @@ def cases(tier, rng):
         cs, es = rng.choice([(COMMA, EQ), (COMMA, EQ), ({'t': 'A', 'v': [',', ';'], 'iface': 'rx'}, {'t': 'K', 'v': '=:', 'iface': 'fn'}),
                              ({'t': 'L', 'v': ',', 'iface': 'fn'}, {'t': 'L', 'v': '=', 'iface': 'rx'})])
         yield {'k': 'kv', 'atoms': atoms, 'csep': cs, 'esep': es, 'pol': rng.choice(POLS), 'eg': rng.random() < 0.7}
+    # 4b. argument views: the same through ParsedArgumentsInfo / SingleParsedArgumentInfo
+    WRAPS = ['m', 'o', 'mg', 'og', 'mgx', 'absent', 'tok']
+    for atoms in _strings(['a', '=', ',', '{v,w}'], 3 if quick else 4):
+        for wrap in WRAPS:
+            yield {'k': 'argview', 'atoms': atoms, 'wrap': wrap, 'pol': 'concatenate', 'eg': True}
+    for _ in range(1500 if quick else 30000):
+        atoms = [rng.choice(A_KV) for _ in range(rng.randint(0, 8))]
+        yield {'k': 'argview', 'atoms': atoms, 'wrap': rng.choice(WRAPS), 'pol': rng.choice(POLS), 'eg': rng.random() < 0.7}
     # 5. oracle-only: callable protocol, empty matches
     for atoms in (['a'], ['a', ',', 'b'], [',', 'a'], ['a', ',']):
         for ke in (False, True):
